@@ -76,6 +76,27 @@ def steady(c, n=2, extra=0):
     if not c.sym: c.eq('returned_solution_satisfies_the_assembled_system', A(th2) @ u, f(th2))
 
 
+def default_solver(c, kind, n=3):
+    """no linear solver supplied (the library's default is used), NON-symmetric operator: the returned solution satisfies the assembled system / each
+    backward-Euler level satisfies its recurrence (bounded stand-in: native, residual check)"""
+    def A(th): return np.array([[(2.0 + abs(c.real(f'a{i}'))) if i == j else c.real(f'A{i}{j}', lo=-0.5, hi=0.5) for j in range(n)] for i in range(n)]) * (1 + th[0] ** 2)
+    def f(th): return np.array([c.real(f'f{i}') for i in range(n)]) + th[1]
+    th = np.array([c.real('th0'), c.real('th1')])
+    if kind == 'steady':
+        pde = SteadyStateLinearPDE(lambda p: (A(p), f(p)))
+        pde.assemble(th); u, info = pde.solve()
+        c.eq('returned_solution_satisfies_the_assembled_system', A(th) @ np.asarray(u), f(th), tol=1e-9)
+    else:
+        times = np.array([0.0, 0.3, 0.4, 1.0])
+        u0 = np.array([c.real(f'u0{i}') for i in range(n)])
+        pde = TimeDependentLinearPDE(lambda p, t: (-A(p) * (1 + t), f(p) * (1 - t), u0), times, method='backward_euler')
+        pde.assemble(th); u, info = pde.solve()
+        c.eq('initial_level_is_initial_condition', u[:, 0], u0, tol=0)
+        for k in range(len(times) - 1):
+            dt = times[k + 1] - times[k]; t1 = times[k + 1]
+            c.eq(f'level[{k + 1}]_satisfies_the_backward_euler_recurrence', (np.eye(n) + dt * A(th) * (1 + t1)) @ u[:, k + 1], u[:, k] + dt * f(th) * (1 - t1), tol=1e-9)
+
+
 def steady_observe(c, n=3, same_grid=True, obsmap=True):
     A, f, _ = _form(c, n)
     grid = np.linspace(0, 1, n); gobs = grid if same_grid else np.linspace(0.1, 0.9, 2)
@@ -178,14 +199,14 @@ def time_dependent(c, method, n=2, K=3, extra=0):
     I = np.eye(n)
     for k in range(K - 1):
         dt = times[k + 1] - times[k]
-        if method == 'forward_euler':
+        if method.lower() == 'forward_euler':
             c.eq(f'level[{k + 1}]_forward_euler_recurrence', u[:, k + 1], (I + dt * A(th, times[k])) @ u[:, k] + dt * f(th, times[k]))
         else:
             c.eq(f'level[{k + 1}]_system_matrix_is_I_minus_dt_A_at_new_time', sol.calls[k][0], I - dt * A(th, times[k + 1]))
             c.eq(f'level[{k + 1}]_right_hand_side_is_previous_level_plus_dt_source_at_new_time', sol.calls[k][1], u[:, k] + dt * f(th, times[k + 1]))
             c.eq(f'level[{k + 1}]_is_the_solvers_solution', u[:, k + 1], sol.sols[k])
             c.holds(f'level[{k + 1}]_solver_keyword_arguments', sol.calls[k][2] == dict(opt=1))
-    if method == 'forward_euler': c.holds('no_linear_solve_in_forward_euler', len(sol.calls) == 0)
+    if method.lower() == 'forward_euler': c.holds('no_linear_solve_in_forward_euler', len(sol.calls) == 0)
     else: c.holds('one_linear_solve_per_step', len(sol.calls) == K - 1)
 
 
@@ -290,10 +311,17 @@ def jobs(tier):
         for K, nn in (((2, 2), (3, 2)) if q else ((1, 2), (2, 2), (3, 2), (4, 2), (5, 2), (3, 1), (3, 3))):
             J.append(Job(f'TimeDependentLinearPDE.solve:{method}:levels={K}' + ('' if nn == 2 else f':n={nn}'), lambda c, m=method, K=K, nn=nn: time_dependent(c, m, nn, K, 1 if method == 'backward_euler' else 0), 'Pbox',
                          F('TimeDependentLinearPDE.solve', 'TimeDependentLinearPDE.assemble', 'TimeDependentLinearPDE.assemble_step'), extra=_extra, timeout=600))
+        # every spelling the method setter accepts (it validates case-insensitively) selects that scheme
+        spelt = {'forward_euler': 'Forward_Euler', 'backward_euler': 'BACKWARD_EULER'}[method]
+        J.append(Job(f'TimeDependentLinearPDE.solve:{method}:spelt_{spelt}:levels=3', lambda c, m=spelt: time_dependent(c, m, 2, 3, 1 if m.lower() == 'backward_euler' else 0), 'Pbox',
+                     F('TimeDependentLinearPDE.solve', 'TimeDependentLinearPDE.method'), extra=_extra, timeout=600))
         J.append(Job(f'TimeDependentLinearPDE.solve:{method}:step_induction_on_cut_loop', lambda c, m=method: euler_step_induction(c, m), 'Pinf', F('TimeDependentLinearPDE.solve'), extra=_extra))
     for to in ('final', 'all', 'explicit'):
         for sg in (True, False):
             J.append(Job(f'TimeDependentLinearPDE.observe:time_obs={to}:same_grid={sg}', lambda c, to=to, sg=sg: time_observe(c, to, sg, 5, 5, to != 'all'), 'Pbox', F('TimeDependentLinearPDE.observe', 'TimeDependentLinearPDE.__init__'), extra=_extra))
+    for kind in ('steady', 'backward_euler'):
+        J.append(Job(f'LinearPDE.default_linear_solver:nonsymmetric_operator:{kind}', lambda c, k=kind: default_solver(c, k), 'B',
+                     F('LinearPDE.__init__', 'LinearPDE._solve_linear_system', 'SteadyStateLinearPDE.solve', 'TimeDependentLinearPDE.solve'), nnum=4))
     J.append(Job('SteadyStateLinearPDE.observe:coinciding_nodes_in_another_order', observe_unsorted_nodes, 'Pbox', F('SteadyStateLinearPDE.observe'), extra=_extra))
     J.append(Job('PDE.grid_setters:flag_invariant', grid_flag_invariant, 'Pbox', F('PDE._compare_grid', 'PDE.grid_sol', 'PDE.grid_obs', 'PDE.grids_equal'), extra=_extra, nnum=1))
     for kind in ('steady', 'time'):
